@@ -13,9 +13,12 @@ import numpy as np
 from . import shim
 
 
-def position_field(shape, dx, dtype):
-    """Cell-centre coordinate field with the simulator's convention (x along the last axis)."""
-    axes = [np.linspace(dx / 2, n * dx - dx / 2, n).astype(dtype) for n in shape]
+def position_field(shape, dx, dtype, origins=None):
+    """Cell-centre coordinate field with the simulator's convention (x along the last axis).
+    ``origins``: per ARRAY axis coordinate of the first cell centre (default dx / 2 on every axis)."""
+    if origins is None:
+        origins = [dx / 2] * len(shape)
+    axes = [(o + np.arange(n) * dx).astype(dtype) for n, o in zip(shape, origins)]
     return np.flipud(np.array(np.meshgrid(*axes, indexing="ij")))
 
 
@@ -56,6 +59,9 @@ def entries(dim: int | None = None):
     out += [("gen_vorticity_stretching_timestep_ssprk3_pyst_kernel_3d", {"midstep": True})]
     out += [("gen_penalise_field_boundary_pyst_kernel_2d", {"width": w, "grid": True}) for w in (0, 1, 2, 3)]
     out += [("gen_penalise_field_boundary_pyst_kernel_3d", {"width": w, "grid": True, "field_type": f}) for w in (0, 1, 2, 3) for f in ft]
+    # coordinate grids whose axes start at DIFFERENT coordinates (domain not anchored at the origin)
+    out += [("gen_penalise_field_boundary_pyst_kernel_2d", {"width": w, "grid": "offset"}) for w in (1, 2)]
+    out += [("gen_penalise_field_boundary_pyst_kernel_3d", {"width": w, "grid": "offset", "field_type": f}) for w in (1, 2) for f in ft]
     out += [
         ("gen_laplacian_filter_kernel_3d", {"filter_order": o, "filter_type": t, "field_type": f, "buffers": True})
         for o in (1, 2, 3) for t in ("multiplicative", "convolution") for f in ft
@@ -82,7 +88,8 @@ def instantiate(name: str, opts: dict, dtype, num_threads=False, shape=None, dx=
     if dx is None:
         dx = 1.0 / shape[-1]
     if opts.get("grid"):
-        pos = position_field(shape, dx, dtype)
+        origins = None if opts["grid"] is True else [(-0.37, 1.21, 0.043)[k] for k in range(d)]
+        pos = position_field(shape, dx, dtype, origins)
         kw["dx"] = dtype(dx)
         kw["x_grid_field"] = pos[0]
         kw["y_grid_field"] = pos[1]
